@@ -24,6 +24,8 @@ import (
 	"github.com/polynetwork/poly/common"
 	"github.com/polynetwork/poly/core/ledger"
 	"github.com/polynetwork/poly/core/states"
+	"github.com/polynetwork/poly/core/store"
+	"github.com/polynetwork/poly/core/store/ledgerstore"
 	"github.com/polynetwork/poly/core/types"
 	bcomn "github.com/polynetwork/poly/http/base/common"
 	"github.com/polynetwork/poly/http/base/rpc"
@@ -96,6 +98,10 @@ type env struct {
 	recs  map[uint32][]record
 	hdrs  map[uint32]*types.Header
 	seq   uint64
+	// crash-recovery phase
+	dir       string
+	vals      []*pk.Key
+	crashNext bool // commit the next block with a simulated crash between the block-store and state-store commits
 }
 
 func requestKey(toChain uint64, txHash common.Uint256) []byte {
@@ -218,7 +224,14 @@ func (e *env) addBlock(nrec int, shape string) uint32 {
 			r.Count("failing_txs_with_records_in_blocks", 1)
 		}
 	}
-	blk, res, err := e.chain.AddBlock(txs, pk.BlockOpt{})
+	var blk *types.Block
+	var res store.ExecuteResult
+	var err error
+	if e.crashNext {
+		blk, res, err = e.crashCommit(txs)
+	} else {
+		blk, res, err = e.chain.AddBlock(txs, pk.BlockOpt{})
+	}
 	if err != nil {
 		r.Violation("honest-block-refused", fmt.Sprintf("block with %d records (%s) refused: %v", nrec, shape, err), nil)
 		return 0
@@ -343,6 +356,44 @@ func (e *env) checkRecords(h uint32, sampleEvery int) {
 	}
 }
 
+// crashCommit submits the next block but "loses power" right after the block-store commit (the
+// verif crash hook panics there, before the event and state stores are committed), closes the
+// ledger and reopens it: the block is then replayed by recoverStore. The proofs of that block and
+// of later blocks are judged like all others.
+func (e *env) crashCommit(txs []*types.Transaction) (*types.Block, store.ExecuteResult, error) {
+	blk, res, err := e.chain.BuildBlock(txs, pk.BlockOpt{})
+	if err != nil {
+		return nil, res, err
+	}
+	if blk, err = pk.Reparse(blk); err != nil {
+		return nil, res, err
+	}
+	crashed := false
+	ledgerstore.VerifCrashHook = func(site string, height uint32) {
+		if site == "submit:after-block-commit" && height == blk.Header.Height {
+			crashed = true
+			panic("simulated crash at " + site)
+		}
+	}
+	p := kit.Catch(func() { err = e.chain.Store.SubmitBlock(blk, res) })
+	ledgerstore.VerifCrashHook = nil
+	if p == nil || !crashed {
+		return nil, res, fmt.Errorf("the crash point was not reached (err %v)", err)
+	}
+	e.chain.Close()
+	chain2, l2, err := pk.OpenLedger(e.dir, 9, e.vals)
+	if err != nil {
+		return nil, res, fmt.Errorf("reopen after crash: %v", err)
+	}
+	ledger.DefLedger = l2
+	e.chain, e.l = chain2, l2
+	if chain2.Store.GetCurrentBlockHeight() != blk.Header.Height {
+		return nil, res, fmt.Errorf("after recovery the tip is %d, the block-store had committed %d", chain2.Store.GetCurrentBlockHeight(), blk.Header.Height)
+	}
+	e.r.Count("blocks_committed_through_crash_recovery", 1)
+	return blk, res, nil
+}
+
 func addrOf(key []byte) common.Address {
 	var a common.Address
 	copy(a[:], key[:20])
@@ -384,7 +435,7 @@ func (e *env) checkPair(h, root uint32, phase string) {
 func TestC08(t *testing.T) {
 	r := kit.Start(t, "C08", "exploration")
 	defer r.Finish()
-	r.Rule("one real ledger; blocks with k cross-chain records for k in {0,1,2,3,4,5,7,8,9,15,16,17,31,32,33,...} (+63..65,127..130 and random k thorough) produced by the real MakeTransaction (shapes: real, raw probe records, mixed, duplicated leaves), every record proved through the RPC handlers and verified against the header; all (h,r) pairs when r becomes the tip and again at the end and after a restart; proof requests overlapping commits (6 reader goroutines during SubmitBlock; the real accumulator + file hash store with its Append parked while proofs of the size in flight are requested); distinct = (records in block, index) / (h,r)")
+	r.Rule("one real ledger; blocks with k cross-chain records for k in {0,1,2,3,4,5,7,8,9,15,16,17,31,32,33,...} (+63..65,127..130 and random k thorough) produced by the real MakeTransaction (shapes: real, raw probe records, mixed, duplicated leaves), every record proved through the RPC handlers and verified against the header; all (h,r) pairs when r becomes the tip and again at the end and after a restart; blocks committed through crash recovery (simulated crash after the block-store commit, restart, recoverStore); proof requests overlapping commits (6 reader goroutines during SubmitBlock; the real accumulator + file hash store with its Append parked while proofs of the size in flight are requested); distinct = (records in block, index) / (h,r)")
 	r.Assume("SHA-256 of the Go standard library; the record codec (ToMerkleValue) is trusted to build the expected record bytes")
 	r.Assume("'served to relayers' = the RPC handlers getcrossstatesproof / getmerkleproof / getsmartcodeevent over ledger.DefLedger")
 	probe.Register()
@@ -398,7 +449,7 @@ func TestC08(t *testing.T) {
 	old := ledger.DefLedger
 	ledger.DefLedger = l
 	defer func() { ledger.DefLedger = old }()
-	e := &env{r: r, chain: chain, l: l, recs: map[uint32][]record{}, hdrs: map[uint32]*types.Header{}}
+	e := &env{r: r, chain: chain, l: l, recs: map[uint32][]record{}, hdrs: map[uint32]*types.Header{}, dir: dir, vals: vals}
 	e.hdrs[0] = chain.Genesis.Header
 
 	counts := []int{0, 1, 2, 3, 4, 5, 7, 8, 9, 15, 16, 17, 31, 32, 33}
@@ -470,8 +521,23 @@ func TestC08(t *testing.T) {
 		return
 	}
 	inflightTree(r, r.N(96, 300))
+	// blocks that reach the state store through recoverStore (crash between the block-store and the
+	// state-store commit, restart), with honest blocks in between
+	for i, n := range []int{3, 0, 8, 1, 17, 5} {
+		e.crashNext = i%2 == 0
+		h := e.addBlock(n, "real")
+		e.crashNext = false
+		if h == 0 {
+			return
+		}
+		e.checkRecords(h, 1)
+		for x := uint32(0); x < h; x += 1 + h/40 {
+			e.checkPair(x, h, "after-crash-recovery")
+		}
+		e.checkPair(h-1, h, "after-crash-recovery")
+	}
 	// restart: proofs served by a reopened ledger
-	chain.Close()
+	e.chain.Close()
 	chain2, l2, err := pk.OpenLedger(dir, 9, vals)
 	if err != nil {
 		r.Violation("reopen-failed", err.Error(), nil)
@@ -501,6 +567,7 @@ func TestC08(t *testing.T) {
 	r.Require("blocks_without_records_zero_root", 2)
 	r.Require("keys_taken_from_events", total*3)
 	r.Require("wrong_height_proof_refused", 3)
+	r.Require("blocks_committed_through_crash_recovery", 3)
 	r.Require("commits_with_concurrent_proof_requests", r.N(40, 200))
 	r.Require("tip_root_served_valid_during_commit", r.N(40, 200))
 	r.Require("tree_appends_with_inflight_requests", r.N(96, 300))
